@@ -132,6 +132,29 @@ type c09jRun struct {
 	emu         sync.Mutex
 	events      []string
 	evClosed    []int
+	panics      int
+	broken      map[int]bool // clients whose Close panicked or blocked
+}
+
+// Close of a client; a panic (possible only on changed code: close of a closed channel, which leaves the
+// client's mutex locked so that a later Close blocks) is caught and reported, a blocked Close abandoned
+func c09jSafeClose(c McuClient) (failed bool) {
+	done := make(chan bool, 1)
+	go func() {
+		defer func() {
+			if r := recover(); r != nil {
+				done <- true
+			}
+		}()
+		c.Close(context.Background())
+		done <- false
+	}()
+	select {
+	case failed = <-done:
+		return failed
+	case <-time.After(2 * time.Second):
+		return true
+	}
 }
 
 type c09jListener struct {
@@ -176,7 +199,7 @@ func c09jStream(t int) StreamType {
 func c09jNewRun(t *testing.T) *c09jRun {
 	mcu, inner := newMcuJanusForTesting(t)
 	h := &c09jRun{mcu: mcu, gw: &c09jGateway{TestJanusGateway: inner, refuseKeys: map[string]bool{}},
-		objs: map[int]McuClient{}, meta: map[int]c09jMeta{}, closedKnown: map[int]bool{},
+		objs: map[int]McuClient{}, meta: map[int]c09jMeta{}, closedKnown: map[int]bool{}, broken: map[int]bool{},
 		handleOwner: map[uint64]int{}, roomOwner: map[uint64]int{}}
 	mcu.settings.(*mcuJanusSettings).setTimeout(c09jMcuTimeout)
 	mcu.createJanusGateway = func(ctx context.Context, wsURL string, listener GatewayListener) (JanusGatewayInterface, error) {
@@ -197,7 +220,9 @@ func c09jNewRun(t *testing.T) *c09jRun {
 		}
 		sort.Ints(ids)
 		for _, id := range ids {
-			h.objs[id].Close(context.Background())
+			if !h.broken[id] {
+				c09jSafeClose(h.objs[id])
+			}
 		}
 		mcu.Stop()
 		h.gw.wipe()
@@ -223,9 +248,12 @@ func (h *c09jRun) raw() string {
 		case *mcuJanusSubscriber:
 			jc = &v.mcuJanusClient
 		}
-		jc.mu.Lock()
+		// (TryLock: a Close that panicked -- possible only on changed code -- leaves the mutex locked)
+		locked := jc.mu.TryLock()
 		hid, rid, hasH := jc.handleId, jc.roomId, jc.handle != nil
-		jc.mu.Unlock()
+		if locked {
+			jc.mu.Unlock()
+		}
 		m := h.meta[id]
 		if hid != 0 {
 			h.handleOwner[hid] = id
@@ -363,7 +391,13 @@ func (h *c09jRun) exec(o c09jOp) (opTerm, obTerm, dgTerm string) {
 			return
 		}
 		h.gw.set(func(g *c09jGateway) { g.refuseDestroy, g.refuseDetach = rd, rt })
-		obj.Close(context.Background())
+		if h.broken[c] {
+			return
+		}
+		if c09jSafeClose(obj) {
+			h.panics++
+			h.broken[c] = true
+		}
 		h.gw.set(func(g *c09jGateway) { g.refuseDestroy, g.refuseDetach = false, false })
 		h.closedKnown[c] = true
 	}
@@ -444,7 +478,7 @@ func (h *c09jRun) exec(o c09jOp) (opTerm, obTerm, dgTerm string) {
 	return
 }
 
-func c09jRunCase(t *testing.T, c *c09jCase) (term string, outs []string) {
+func c09jRunCase(t *testing.T, c *c09jCase) (term string, outs []string, panics int) {
 	t.Run(fmt.Sprintf("case%d", c.Id), func(t *testing.T) {
 		h := c09jNewRun(t)
 		var steps []string
@@ -454,6 +488,7 @@ func c09jRunCase(t *testing.T, c *c09jCase) (term string, outs []string) {
 			outs = append(outs, bt+" "+dt)
 		}
 		term = fmt.Sprintf("mkcase %d [\n  %s]", c.Id, strings.Join(steps, ";\n  "))
+		panics = h.panics
 	})
 	return
 }
@@ -491,14 +526,19 @@ func c09jGen(r *vrng, id int) *c09jCase {
 	if storm {
 		c.Family = "random:storm"
 	}
-	made := 0 // upper bound of the ids handed out
+	made := 0 // ids handed out, as far as the generator can tell (it follows the gateway's state roughly)
+	down := false
 	type key struct{ s, t int }
 	reg := map[key]bool{} // keys a publisher may be registered for (approximation, for the caller's discipline)
+	var keys []key
 	for i := 0; i < n; i++ {
 		x := r.intn(100)
 		if storm && i >= 3 {
 			// more closes, losses and reconnects once something exists
 			x = 45 + r.intn(55)
+		}
+		if down && r.chance(35) {
+			x = 95 // a lost gateway is soon reconnected to
 		}
 		switch {
 		case x < 28:
@@ -508,12 +548,22 @@ func c09jGen(r *vrng, id int) *c09jCase {
 					k = key{1 + r.intn(3), r.intn(2)}
 				}
 			}
-			reg[k] = true
-			made++
-			c.Ops = append(c.Ops, c09jOp{K: "newpub", S: k.s, T: k.t, Rc: r.chance(8)})
+			rc := r.chance(8)
+			if !down && !rc {
+				reg[k] = true
+				keys = append(keys, k)
+				made++
+			}
+			c.Ops = append(c.Ops, c09jOp{K: "newpub", S: k.s, T: k.t, Rc: rc})
 		case x < 48:
-			made++
-			c.Ops = append(c.Ops, c09jOp{K: "newsub", O: 1 + r.intn(3), S: 1 + r.intn(3), T: r.intn(2)})
+			k := key{1 + r.intn(3), r.intn(2)}
+			if len(keys) > 0 && r.chance(85) {
+				k = keys[r.intn(len(keys))]
+			}
+			if !down && reg[k] {
+				made++
+			}
+			c.Ops = append(c.Ops, c09jOp{K: "newsub", O: 1 + r.intn(3), S: k.s, T: k.t})
 		case x < 70:
 			cid := 1 + r.intn(made+1)
 			if r.chance(3) {
@@ -527,9 +577,10 @@ func c09jGen(r *vrng, id int) *c09jCase {
 		case x < 76:
 			c.Ops = append(c.Ops, c09jOp{K: "closeall", O: 1 + r.intn(3)})
 			reg = map[key]bool{}
-		case x < 86:
+		case x < 84:
 			c.Ops = append(c.Ops, c09jOp{K: "gwdown", Wipe: r.chance(50)})
-		case x < 90:
+			down = true
+		case x < 87:
 			c.Ops = append(c.Ops, c09jOp{K: "gwup"})
 		default:
 			o := c09jOp{K: "reconnect"}
@@ -537,6 +588,11 @@ func c09jGen(r *vrng, id int) *c09jCase {
 				o.Fail = append(o.Fail, [2]int{1 + r.intn(3), r.intn(2)})
 			}
 			c.Ops = append(c.Ops, o)
+			down = false
+			keys = nil // mcu.publishers is emptied
+			regOld := reg
+			reg = map[key]bool{}
+			_ = regOld
 		}
 	}
 	return c
@@ -568,9 +624,13 @@ func TestVerifC09J(t *testing.T) {
 		}
 	}
 	for _, c := range cases {
-		term, outs := c09jRunCase(t, c)
+		term, outs, panics := c09jRunCase(t, c)
 		if term == "" {
 			t.Fatalf("case %d did not run", c.Id)
+		}
+		if panics > 0 {
+			sink.count("close_panicked")
+			sink.violation(c.Id, "Close of a publisher / subscriber panicked (the process would have died)", c)
 		}
 		fam := c.Family
 		if i := strings.Index(fam, ":"); i >= 0 && strings.HasPrefix(fam, "random") {
